@@ -56,6 +56,8 @@ var values = []valSpec{
 	{`"aa=1, bb=2 , aab=3"`, "aa=1, bb=2 , aab=3", false, false, true},
 	{`"bb=x,Aa=y ,zz"`, "bb=x,Aa=y ,zz", false, false, true},
 	{`"zz , aab=q,  bb = r"`, "zz , aab=q,  bb = r", false, false, true},
+	{`" lead"`, " lead", false, false, false},   // blanks at the edges belong to the value of the whole header
+	{`"trail "`, "trail ", false, false, false}, // (as sub-field values they are not clean)
 }
 
 // expected sub-field reads after a list value was assigned to the whole header (keys compare
@@ -72,7 +74,7 @@ var nameGroups = [][]string{
 	{"Foo-Baz", "foo-baz", "FOO-BAZ", "fOO-bAZ"}, // shares the prefix "Foo" with group 0 (wildcard, prefix bugs)
 }
 var cookieGroup = []string{"Cookie", "cookie", "COOKIE", "cOOkie"}
-var keys = []string{"aa", "aab", "bb", "Aa"} // one key is a proper prefix of another, one is a case variant of another
+var keys = []string{"aa", "aab", "bb", "Aa", "k"} // one key is a proper prefix of another, one is a case variant of another, one has a single letter
 
 var targets = []struct{ obj, scope string }{
 	{"req", "RECV"}, {"req", "HASH"}, {"req", "HIT"}, {"req", "MISS"}, {"req", "PASS"}, {"req", "FETCH"}, {"req", "ERROR"}, {"req", "DELIVER"}, {"req", "LOG"},
@@ -117,6 +119,8 @@ func reducedOps() []op {
 				out = append(out, op{K: "setf", N: n, Key: k, V: v})
 			}
 		}
+		out = append(out, op{K: "set", N: n, V: 14})
+		out = append(out, op{K: "setf", N: n, Key: "k", V: 2})
 		out = append(out, op{K: "add", N: n, V: 0})
 		out = append(out, op{K: "unset", N: n})
 		out = append(out, op{K: "unsetf", N: n, Key: "aa"})
@@ -480,6 +484,12 @@ func checkSeq(oc *fw.Outcome, s seq) {
 				}
 				if whole.NotSet {
 					viol("whole-after-field-set", "the header reads as not set after one of its sub-fields was written")
+				}
+			}
+			// an empty (but set) value: the sub-field exists and reads as the empty string
+			if !v.notset && v.val == "" && !dirty(s, o) {
+				if f.NotSet || f.Str != "" {
+					viol("field-read-after-set-empty", fmt.Sprintf("sub-field %s reads %s after it was set to the empty string, expected a set empty value", o.Key, f))
 				}
 			}
 			siblings(oc, s, o, v.clean, prev, cur, grp, viol)
